@@ -541,6 +541,7 @@ class AckMonitor(Monitor):
         self.challenges = {}  # endpoint -> {PATH_CHALLENGE data: address it was sent to}
         self.path_changes = 0
         self.exempt_path_switched = 0
+        self.max_ranges = 0  # largest number of ranges seen in one ACK frame
         self.judged_next = set()  # (ep, space, pn) of Initial/Handshake obligations already compared with what was opened
         self.exempt_not_opened = 0
         self.opened_and_owed = 0
@@ -718,6 +719,8 @@ class AckMonitor(Monitor):
             for f in acks:
                 self.ack_frames_checked += 1
                 self.evaluations += 1
+                if len(f["ranges"]) > self.max_ranges:
+                    self.max_ranges = len(f["ranges"])
                 dset = self.delivered.get(key, set())
                 for lo, hi in f["ranges"]:
                     if hi - lo > 200000:
